@@ -11,7 +11,10 @@ for d in sys.argv[1:]:
         continue
     meta = json.load(open(os.path.join(d, 'meta.json')))
     # second-round seeds live under /tmp/seed2/<Cnn>/m<k>: keep them apart from the first round's
-    rnd = 'r2' if os.sep + 'seed2' + os.sep in d else ('r3' if os.sep + 'seed3' + os.sep in d else '')
+    rnd = ''
+    for k in ('2', '3', '4', '5'):
+        if os.sep + 'seed' + k + os.sep in d:
+            rnd = 'r' + k
     sid = '%s-%s%s' % (meta['property'], rnd, os.path.basename(d))
     dst = os.path.join(ROOT, 'seeded', sid)
     os.makedirs(dst, exist_ok=True)
